@@ -5,6 +5,7 @@ import SdJwt.Lemmas.MarkInv
 import SdJwt.Lemmas.EndToEnd
 import SdJwt.Lemmas.Example
 import SdJwt.Lemmas.Redact
+import SdJwt.Lemmas.RedactBound
 /-!
 # C02 — selective disclosure end to end: the verifier sees the original minus the redacted
 
@@ -15,7 +16,7 @@ everything inside them) absent; redacting a path that is not disclosable changes
 The chain is: holder filter (`keptEntries`, below) → verifier restoration (T-restore, see C03/C08)
 → stripping (`C02_strip`: `remove_digests` of the restored view is the projection).
 -/
-open Impl Spec
+open Impl Spec Assoc
 
 /-- the verifier's last step: stripping the restored view gives the projection, for every
 conformant tree and every set of presented disclosures -/
@@ -174,3 +175,57 @@ theorem C02_presentation_build (rt : Rt) (jwt : String) (strs : List String) (he
     Holder.build rt { sdJwt := jwt, paths := ps } R none nonce now =
       .ok (assemble jwt (keptDisclosures ps R), none) :=
   holder_presentation_build rt jwt strs header payload c ps R a b sig nonce now hj hs hseg hclaims halg hcnf hr
+
+/-- **C02 with key binding: issuer → holder → `redact(R)` → `build` with key binding → verifier.**
+The token is bound to the holder key `X` (an RSA JWK). With the hypotheses of `C01_end_to_end`:
+the holder obtains its path list `ps`; for ANY list `R` of strings to redact, if the presentation
+`Holder::build` keeps is followed by a key-binding JWT which the JWT library accepts under `X`,
+typed `kb+jwt`, with `sd_hash` the hash of the presentation up to its last `~` — what
+`Holder::build` puts there (`C02_build_bound`) —, the verifier (with a key-binding policy) accepts
+and returns the issued claims minus exactly the marked nodes whose pointer is in `R` and everything
+inside them, plus `cnf`. -/
+theorem C02_redact_bound (rt : Rt) (mk : Nat → Option String → J → String)
+    (paths : List String) (addr : List (List String × String)) (ms : MMems) (Tn : MJ)
+    (ds : List SDisc) (decoys : Option (List String)) (X : MJ) (jwt : String) (header : J)
+    (strs : List String) (R : List String)
+    (wf : (MJ.obj ms none).WF) (hplain : (MJ.obj ms none).digests = [])
+    (hk1 : "_sd_alg" ∉ ms.keys) (hk2 : "cnf" ∉ ms.keys)
+    (hp : ParsedAll paths addr) (h : markAll mk 0 addr (.obj ms none) = some (Tn, ds)) (hne : ds ≠ [])
+    (hdec : ∀ l, decoys = some l → l.Nodup ∧ (∀ g ∈ l, g ∉ Tn.digests))
+    (hX : X.WF ∧ X.digests = [])
+    (hsig : ∀ payload dsrc,
+      encode (MJ.obj ms none).payload paths mk decoys (some X.payload) = .ok (payload, dsrc) →
+      rt.jwtDecode jwt = .ok (header, payload))
+    (hstr : ∀ s ∈ strs, ∃ e ∈ ds,
+      fromBase64 (rt.env "sha-256") s = .ok ⟨s, e.digest, e.key, e.value⟩)
+    (hnd : (strs.map (rt.hash "sha-256")).Nodup)
+    (hall : ∀ e ∈ ds, ∃ s ∈ strs, rt.hash "sha-256" s = e.digest)
+    (hj : '~' ∉ jwt.toList) (hs : ∀ s ∈ strs, '~' ∉ s.toList)
+    (hkty : (jidx X.payload "kty").asStr = some "RSA")
+    (he : (jidx X.payload "e").asStr.isSome = true) (hn : (jidx X.payload "n").asStr.isSome = true) :
+    ∃ ps, Holder.verify rt (assemble jwt strs) = .ok (header, expectedClaims ms (some X), ps) ∧
+      ∀ (kb : String) (kh kc : J), '~' ∉ kb.toList → kb.toList ≠ [] →
+        rt.kbDecode kb X.payload = .ok (kh, kc) →
+        (jidx kh "typ").asStr = some "kb+jwt" →
+        (jidx kc "sd_hash").asStr = some (rt.hash "sha-256" (assemble jwt (keptDisclosures ps R))) →
+        ∃ msn sdn, Tn = .obj msn sdn ∧
+          Verifier.verify rt (assemble jwt (keptDisclosures ps R) ++ kb) true =
+            .ok (header, .obj (ains "cnf" X.plain (msn.project (notRedacted Tn R)))) :=
+  redact_verify_issued_bound rt mk paths addr ms Tn ds decoys X jwt header strs R wf hplain hk1 hk2 hp h hne
+    hdec hX hsig hstr hnd hall hj hs hkty he hn
+
+/-- `Holder::build` on a bound token with key-binding parameters is the function `C02_redact_bound`
+speaks about: it emits exactly `jwt~kept…~` with `kept = keptDisclosures ps R`, and the content of
+its key-binding JWT commits to exactly that string under the declared digest algorithm -/
+theorem C02_build_bound (rt : Rt) (jwt : String) (ps : List PathEntry) (R : List String)
+    (p : KbParams) (nonce : String) (now : Int) (a b sig : List Char) (payload : J)
+    (hseg : splitOn '.' jwt.toList = [a, b, sig])
+    (hclaims : rt.decodeClaims (strOf b) = some payload)
+    (halg : (jidx payload "_sd_alg").asStr = some "sha-256")
+    (hcnf : (jget? payload "cnf").isSome = true) :
+    Holder.build rt { sdJwt := jwt, paths := ps } R (some p) nonce now =
+      .ok (assemble jwt (keptDisclosures ps R),
+           some { typ := "kb+jwt", alg := p.alg, aud := p.aud, nonce := nonce, iat := now,
+                  sdHash := rt.hash "sha-256" (assemble jwt (keptDisclosures ps R)) }) :=
+  holder_build_bound rt jwt ps R p nonce now a b sig payload hseg hclaims halg hcnf
+
